@@ -137,8 +137,8 @@ let c08_line (fx : fixes) (line : string) : string =
   let ks = List.sort_uniq compare (List.map c08_class_name (toy_classes fx ind (Obj.magic dk) h)) in
   model ^ "\t" ^ spec ^ "\t" ^ (if ks = [] then "-" else String.concat "," ks)
 
-(* `deployed` (Model/Events.v) = the repairs that are in /repo now (all eight: the last one is the didOpen repair,
-   fixes/C02-didopen-analysed.diff; `round3` = the code before it) *)
+(* `deployed` (Model/Events.v) = the repairs that are in /repo now (all nine: the last one is the changed-unknown repair,
+   fixes/C08-changed-unknown.diff; `round4` = the code before it; `round3` = also without the didOpen repair) *)
 let () = register "c08.history" (c08_line deployed)
 let () = register "c08.raw" (c08_line deployed)
 (* watched notifications naming several files *)
@@ -154,16 +154,23 @@ let () = register "c08.indir" (c08_line deployed)
 (* documents opened with a text that is not the file's text (restored unsaved buffers) *)
 let () = register "c08.opentext" (c08_line deployed)
 (* one watched notification naming the same path several times (non-conformant for the spec: its column is "-"; the check
-   compares every view with the fresh start's itself) *)
+   compares every view with the fresh start's itself); samepathraw: those with a `Deleted X, Changed X` pair *)
 let () = register "c08.samepath" (c08_line deployed)
 let () = register "c08.samepathraw" (c08_line deployed)
+(* the queries clause (harness/legs_c08.go c08.query: the real server after a history against a fresh real server): there is
+   no Coq model of query answers. The first item of a case is the class predicate of the open finding stale_foreign_member,
+   computed by checks/c08.py (stale_members): Q:1 = inside the class, answers not compared (observable "class");
+   Q:0 = outside: the answers are the fresh server's (observable "=") *)
+let () = register "c08.query" (fun line ->
+  if String.length line >= 3 && String.sub line 0 3 = "Q:1" then "class\t=\tstale_foreign_member" else "=\t=\t-")
 (* the same history against the model with all repairs switched on / with those of round 1 / round 2 / round 3 (= all but
-   the didOpen repair) only / with none (not deciding legs; used by hand to validate a repair diff against a patched or an
+   the didOpen repair) only / with none (round4 = all but the changed-unknown repair; not deciding legs; used by hand to validate a repair diff against a patched or an
    old copy of the code) *)
 let () = register "c08.history_fixed" (c08_line all_fix)
 let () = register "c08.history_round1" (c08_line round1)
 let () = register "c08.history_round2" (c08_line round2)
 let () = register "c08.history_round3" (c08_line round3)
+let () = register "c08.history_round4" (c08_line round4)
 let () = register "c08.history_unfixed" (c08_line no_fix)
 
 let () = main ()
